@@ -210,6 +210,98 @@ func dateConfigs(thorough bool) []cfg {
 	return out
 }
 
+// spanConfigs: date_range SPANS whose ends are enumerated around calendar discontinuities
+// (added after seeded change c09-4). For date_day: for every boundary B in {1 Jan after a
+// common / leap / century year, 1 Mar of common and leap years, 1 Feb, 1 May (30-day month
+// before), 1 Aug (31-day month before)} the spans a-b with a in {B-3,B-2,B-1}, b in {B,B+1},
+// the one-sided spans (B-2)-(B-1) and B-(B+1), the one-day spans (B-1)-(B-1) and B-B, one
+// descending span, a two-slice list split exactly at B, and long spans (> 365 days, up to
+// ~3 years) between two year-end / 1-March boundaries with both ends on either side of
+// their boundary. The analogous year-crossing lists for date_month and date_year.
+func spanConfigs() []cfg {
+	var out []cfg
+	seen := map[string]bool{}
+	add := func(typ string, entries ...string) {
+		c := cfg{Type: typ, DateRange: entries}
+		if !seen[c.id()] {
+			seen[c.id()] = true
+			out = append(out, c)
+		}
+	}
+	day := func(y, m, d int) time.Time { return time.Date(y, time.Month(m), d, 0, 0, 0, 0, time.UTC) }
+	f := func(t time.Time) string { return t.Format("20060102") }
+	sp := func(a, b time.Time) string { return f(a) + "-" + f(b) }
+	years := []int{1900, 1999, 2000, 2001, 2015, 2016, 2017, 2023, 2024}
+	var major []time.Time // year ends and 1 March: ends of the long spans
+	for _, y := range years {
+		for _, b := range []time.Time{day(y+1, 1, 1), day(y, 3, 1), day(y, 2, 1), day(y, 5, 1), day(y, 8, 1)} {
+			for _, a := range []int{-3, -2, -1} {
+				for _, e := range []int{0, 1} {
+					add(models.ShardDay, sp(b.AddDate(0, 0, a), b.AddDate(0, 0, e)))
+				}
+			}
+			add(models.ShardDay, sp(b.AddDate(0, 0, -2), b.AddDate(0, 0, -1)))
+			add(models.ShardDay, sp(b, b.AddDate(0, 0, 1)))
+			add(models.ShardDay, sp(b.AddDate(0, 0, -1), b.AddDate(0, 0, -1)))
+			add(models.ShardDay, sp(b, b))
+			add(models.ShardDay, sp(b.AddDate(0, 0, 1), b.AddDate(0, 0, -2))) // descending
+			add(models.ShardDay, sp(b.AddDate(0, 0, -2), b.AddDate(0, 0, -1)), sp(b, b.AddDate(0, 0, 1)))
+		}
+		major = append(major, day(y, 3, 1), day(y+1, 1, 1))
+	}
+	for _, bi := range major {
+		for _, bj := range major {
+			if d := bj.Sub(bi).Hours() / 24; d < 364 || d > 1100 {
+				continue
+			}
+			for _, a := range []int{-1, 0} {
+				for _, e := range []int{-1, 0} {
+					add(models.ShardDay, sp(bi.AddDate(0, 0, a), bj.AddDate(0, 0, e)))
+				}
+			}
+		}
+	}
+	ym := func(y, m int) string {
+		t := day(y, m, 1)
+		return t.Format("200601")
+	}
+	for _, y := range []int{1999, 2015, 2016, 2023} {
+		for _, a := range []int{11, 12} {
+			for _, e := range []int{13, 14} { // Jan, Feb of y+1
+				add(models.ShardMonth, ym(y, a)+"-"+ym(y, e))
+			}
+		}
+		add(models.ShardMonth, ym(y, 12)+"-"+ym(y, 12))
+		add(models.ShardMonth, ym(y, 13)+"-"+ym(y, 13))
+		add(models.ShardMonth, ym(y, 14)+"-"+ym(y, 11)) // descending
+		add(models.ShardMonth, ym(y, 11)+"-"+ym(y, 12), ym(y, 13)+"-"+ym(y, 14))
+		for _, a := range []int{1, 11, 12} {
+			for _, e := range []int{25, 36, 38} { // Jan and Dec of y+2, Feb of y+3
+				add(models.ShardMonth, ym(y, a)+"-"+ym(y, e))
+			}
+		}
+	}
+	for _, y := range []int{1999, 2000, 2015, 2016, 2099} {
+		add(models.ShardYear, fmt.Sprintf("%d-%d", y, y+1))
+		add(models.ShardYear, fmt.Sprintf("%d-%d", y, y+2))
+		add(models.ShardYear, fmt.Sprintf("%d-%d", y, y))
+		add(models.ShardYear, fmt.Sprintf("%d-%d", y+1, y))
+		add(models.ShardYear, fmt.Sprintf("%d", y), fmt.Sprintf("%d-%d", y+1, y+2))
+	}
+	return out
+}
+
+// atDiscontinuity: periods next to a calendar discontinuity inside a long entry also get keys.
+func atDiscontinuity(typ string, p period) bool {
+	switch typ {
+	case models.ShardDay:
+		return (p.m == 12 && p.d == 31) || (p.m == 1 && p.d <= 2) || (p.m == 2 && p.d >= 28) || (p.m == 3 && p.d == 1)
+	case models.ShardMonth:
+		return p.m == 12 || p.m == 1
+	}
+	return false
+}
+
 // ---------------------------------------------------------------- calendar reference
 
 // period is the first day of a calendar period (month = day = 1 for a year, day = 1 for a month).
@@ -471,7 +563,7 @@ func dateKeys(c cfg, ref cfgRef, loc *time.Location) []kcase {
 	for _, e := range ref.entries {
 		use(shift(typ, e[0], -1))
 		for i, p := range e {
-			if len(e) <= 10 || i < 4 || i >= len(e)-4 {
+			if len(e) <= 10 || i < 4 || i >= len(e)-4 || atDiscontinuity(typ, p) {
 				use(p)
 			}
 		}
@@ -608,10 +700,21 @@ func keylen(k key) string {
 	return strconv.Itoa(len(k.S))
 }
 
-func runKey(r *ev.Run, kc kcase, rule, linked router.Rule) {
+func runKey(r *ev.Run, kc kcase, rule, linked router.Rule, ref *cfgRef) {
 	idx, err, pv := call(rule, kc.Key)
 	r.Add("evaluations", 1)
 	kind, msg := judge(kc.Want, idx, err, pv)
+	if kind == "" && kc.Want.Mode == "place" {
+		// the table of the key's own interval / period must be on the slice the configuration assigns to that
+		// interval / date_range entry, and on no slice (-1) when the period is not configured
+		wantSlice, in := ref.sliceOf[kc.Want.Index]
+		if !in {
+			wantSlice = -1
+		}
+		if got := rule.GetSliceIndexFromTableIndex(idx); got != wantSlice {
+			kind, msg = "wrong_slice", fmt.Sprintf("placed in table %d, which is mapped to slice index %d; the configuration assigns slice index %d", idx, got, wantSlice)
+		}
+	}
 	if kind == "" {
 		// the linked table must follow its parent
 		li, lerr, lpv := call(linked, kc.Key)
@@ -673,7 +776,7 @@ func runConfig(r *ev.Run, tz string, loc *time.Location, c cfg, sample bool) {
 	}
 	for i, kc := range ks {
 		kc.TZ = tz
-		runKey(r, kc, rule, linked)
+		runKey(r, kc, rule, linked, &ref)
 		if sample && (i == 3 || i == len(ks)/2) {
 			r.Sample(kc)
 		}
@@ -693,10 +796,11 @@ func main() {
 		if rule == nil {
 			ev.Fatalf("replay: configuration cannot be loaded: %s", why)
 		}
+		rref := reference(rc.Cfg)
 		if rc.Class == "layout" {
-			checkLayout(r, rc.TZ, rc.Cfg, rule, linked, reference(rc.Cfg))
+			checkLayout(r, rc.TZ, rc.Cfg, rule, linked, rref)
 		} else {
-			runKey(r, rc, rule, linked)
+			runKey(r, rc, rule, linked, &rref)
 		}
 		_ = loc
 		r.Set("rule", "replay of one recorded case")
@@ -707,7 +811,17 @@ func main() {
 	if r.Thorough() {
 		zones = append(zones, "Pacific/Auckland", "Europe/London", "Asia/Kolkata")
 	}
-	cfgs := append(dateConfigs(r.Thorough()), rangeConfigs()...)
+	var cfgs []cfg
+	perType := map[string]int{}
+	seenCfg := map[string]bool{}
+	for _, c := range append(append(dateConfigs(r.Thorough()), spanConfigs()...), rangeConfigs()...) {
+		if !seenCfg[c.id()] {
+			seenCfg[c.id()] = true
+			cfgs = append(cfgs, c)
+			perType[c.Type]++
+		}
+	}
+	r.Set("configurations_per_rule_type", perType)
 	for _, tz := range zones {
 		loc := setTZ(tz)
 		done := enum.Parallel(len(cfgs), r.TimeUp, func(i int) {
